@@ -65,12 +65,13 @@ def seed(pid, tag, n=3):
     print(os.path.join(WT, tag + '.prompt.txt'))
 
 
-def benign(tag, area, style):
+def benign(tag, area, style, template='refactor_template.txt'):
     d = worktree(tag)
-    t = open(os.path.join(VERIF, 'notes', 'refactor_template.txt')).read()
+    t = open(os.path.join(VERIF, 'notes', template)).read()
     t = t.replace('{AREA}', area)
     if style:
         t = t.replace('Produce FIVE different, independent refactorings of that code.', 'Produce FIVE different, independent refactorings of that code. ' + style, 1)
+        t = t.replace('Produce FIVE different, independent pull requests for that code.', 'Produce FIVE different, independent pull requests for that code. ' + style, 1)
     t = t.replace('{WT}', d)
     open(os.path.join(WT, tag + '.prompt.txt'), 'w').write(t)
     print(os.path.join(WT, tag + '.prompt.txt'))
@@ -81,4 +82,4 @@ if __name__ == '__main__':
     if a[0] == 'seed':
         seed(a[1], a[2], int(a[3]) if len(a) > 3 else 3)
     else:
-        benign(a[1], open(a[2]).read().strip(), open(a[3]).read().strip() if len(a) > 3 else '')
+        benign(a[1], open(a[2]).read().strip(), open(a[3]).read().strip() if len(a) > 3 else '', a[4] if len(a) > 4 else 'refactor_template.txt')
